@@ -285,6 +285,25 @@ func monitorSeq(evs []seqEvent, cfg map[string]keyCfg) *monHit {
 				fmt.Sprintf("refusals %v cannot all be explained by let-through counts under any window placement; they are explained once requests refused by an ancestor are counted on the descendant keys", ref)}
 		}
 	}
+	// which verdict is the first that cannot be reconciled with the ones before it?
+	for n := 1; n <= len(evs); n++ {
+		some := false
+		for _, c2 := range ok {
+			if explain(evs[:n], c2, false) || explain(evs[:n], c2, true) {
+				some = true
+				break
+			}
+		}
+		if some {
+			continue
+		}
+		if last := evs[n-1]; last.admitted {
+			return &monHit{sigOver,
+				"per key at most max requests are let through per window of the configured length (disjoint windows, any alignment); a refusal shows that the window of its instant is full",
+				fmt.Sprintf("the request of step %d (t=%d) was let through although every placement of windows consistent with the verdicts before it (admissions and refusals %v) has a full window on its chain at that instant", last.idx, last.t, ref)}
+		}
+		break
+	}
 	return &monHit{sigSpurious, dem,
 		fmt.Sprintf("refusals %v have no explanation under any window placement", ref)}
 }
